@@ -174,3 +174,93 @@ func lockPairing(c *cx, id string, classes []string, wrappers map[string]bool) {
 }
 
 var _ = token.NoPos
+
+// lockOrder (E-lock, order): for every acquisition of a mutex class B at a
+// point where the must-lockset already holds a class A (A != B), record the
+// edge A -> B (acquisitions through acquire-wrappers such as TokenWriter
+// count). The order graph over all functions of the library must be acyclic:
+// two goroutines that take A and B in opposite orders can deadlock (Close
+// while a handler reply is being flushed).
+func lockOrder(c *cx, id string) {
+	type edge struct{ a, b string }
+	where := map[edge]string{}
+	fnOf := map[edge]*eng.Fn{}
+	posOf := map[edge]ast.Node{}
+	acq, _ := c.p.LockWrappers()
+	// the negotiation functions run one at a time on the goroutine that builds
+	// the session, before the session is handed to the application: their
+	// relative lock order cannot meet another goroutine's
+	neg := map[*eng.Fn]bool{}
+	for _, f := range negSet(c, id) {
+		neg[f] = true
+	}
+	for _, f := range c.allFns() {
+		if f.Body == nil || neg[f] {
+			continue
+		}
+		g := f.Graph()
+		li := g.Locks(nil)
+		for _, cl := range f.AllCalls() {
+			var cls string
+			if op, k, _ := f.LockOp(cl); op > 0 {
+				cls = k
+			} else if w, ok := acq[f.CalleeID(cl)]; ok {
+				cls = w[0]
+			}
+			if cls == "" {
+				continue
+			}
+			ls, ok := li.AtNode(cl)
+			if !ok {
+				continue
+			}
+			for held := range ls {
+				if held == cls {
+					continue
+				}
+				e := edge{held, cls}
+				if _, seen := where[e]; !seen {
+					where[e] = f.Short + " (" + c.p.Pos(cl.Pos()) + ")"
+					fnOf[e] = f
+					posOf[e] = cl
+				}
+			}
+		}
+	}
+	var es []edge
+	for e := range where {
+		es = append(es, e)
+	}
+	sort.Slice(es, func(i, j int) bool { return es[i].a+es[i].b < es[j].a+es[j].b })
+	// cycles: for each edge a->b, is a reachable from b?
+	adj := map[string][]string{}
+	for _, e := range es {
+		adj[e.a] = append(adj[e.a], e.b)
+	}
+	reach := func(from, to string) bool {
+		seen := map[string]bool{}
+		stack := []string{from}
+		for len(stack) > 0 {
+			x := stack[len(stack)-1]
+			stack = stack[:len(stack)-1]
+			if x == to {
+				return true
+			}
+			if seen[x] {
+				continue
+			}
+			seen[x] = true
+			stack = append(stack, adj[x]...)
+		}
+		return false
+	}
+	for _, e := range es {
+		cyc := reach(e.b, e.a)
+		why := ""
+		if cyc {
+			why = "the opposite order is taken elsewhere (a path " + e.b + " -> ... -> " + e.a + " exists in the order graph): two goroutines can deadlock"
+		}
+		c.r.Check(id, fnOf[e], "lock order "+e.a+" -> "+e.b, "E-lock: the lock-order graph (class held -> class acquired, over all functions) is acyclic", posOf[e].Pos(), !cyc, why)
+	}
+	c.r.Floor(id, "lock-order edges", len(es), 2)
+}
